@@ -941,6 +941,10 @@ def split_to_sequence(node: ir.Node, op, state: OptimizerState) -> ReturnValue:
         if split_size <= 0:
             # Invalid split size; bail out instead of raising.
             return None
+        if split_dimension_size <= 0:
+            # An empty axis gives the empty sequence: Split cannot have zero outputs
+            # and SequenceConstruct needs at least one input.
+            return None
         num_outputs = math.ceil(split_dimension_size / split_size)
         split_outputs = [f"{output.name}_split_{i}" for i in range(num_outputs)]
         if split_dimension_size % split_size != 0:
